@@ -50,13 +50,43 @@ def _gamma_pos(v):
   return v.self.gamma > 0
 
 
+def _cbw_active(a):
+  loc = getattr(a.path, 'final_locals', {})
+  B, w = loc.get('basis'), loc.get('w')
+  if not isinstance(B, VArr) or not isinstance(w, VArr):
+    return None, None
+  return a.path.store[B.loc], a.path.store[w.loc]
+
+
+def _cbw_rows(a, r):
+  B, w = _cbw_active(a)
+  if B is None:
+    return z3.BoolVal(False)
+  nb, d = B.shape.dims[0], a.basis.dim(1)
+  return r.dim(0) == z3.If(nb < d, nb, d)
+
+
+def _cbw_value(a, r):
+  B, w = _cbw_active(a)
+  if B is None or B.term is None or w.term is None or r.term is None:
+    return z3.BoolVal(False)
+  low = TH.rowscale(B.term, TH.sqrtT(TH.tr(w.term)))
+  full = TH.cfm(TH.mm(TH.tr(B.term), TH.rowscale(B.term, TH.tr(w.term))))
+  return z3.BoolVal(r.term.eq(low) or r.term.eq(full))
+
+
 CBW = 'scml:_BaseSCML._components_from_basis_weights'
 register(Contract(
     CBW,
     cases=[Case('w', {'self': Obj('SCML', {}, closed=True), 'basis': Arr(2, dims=['nb', 'd']), 'w': Arr(2, dims=[1, 'nb'])},
                 pre=lambda a: nonneg_row(a.w.term))],
     ensures={'shape': lambda a, r: z3.And(r.ndim == 2, r.dim(1) == a.basis.dim(1), r.dim(0) <= a.basis.dim(1)),
-             'fresh': lambda a, r: z3.BoolVal(len(r.owner) == 0)},
+             'fresh': lambda a, r: z3.BoolVal(len(r.owner) == 0),
+             # "when fewer than n_features basis elements are active the transformation has THAT MANY rows"
+             'one-row-per-active-basis-element-when-low-rank': body_only(lambda a, r: _cbw_rows(a, r)),
+             # M = sum_i w_i b_i b_i^T over the active elements: low rank L = diag(sqrt(w)) B (Lean basis_comb_factor: L^T L = B^T diag(w) B);
+             # full rank L = components_from_metric(B^T diag(w) B) (C20 contract: L^T L = that matrix)
+             'transformation-factors-the-weighted-combination-of-the-active-basis': body_only(lambda a, r: _cbw_value(a, r))},
     events={'low-rank-only-with-warning': lambda a, ev, r: z3.Implies(r.dim(0) < r.dim(1), z3.BoolVal(any(e[0] == 'warn' for e in ev)))},
     raises={'ValueError': May(), 'NonPSDError': May(), 'LinAlgError': May()},
     returns=Returns(lambda a, p, ex: cbw_returns(a, p)),
